@@ -863,3 +863,77 @@ def family_nodes(ctx, fi):
 def family_walk(ctx, fi):
     for node in family_nodes(ctx, fi):
         yield from ast.walk(node)
+
+
+def leaf_mutations(prog, S, fi, _depth=0, _seen=None):
+    """Mutations of `fi` with those performed through package callees replaced by the callee's own statements
+    (recursively), so that extracting a helper leaves the set unchanged.
+    Yields (kind, path in terms of fi's parameters, how, node, owner FuncInfo)."""
+    import re as _re
+    from vstatic.argbind import resolve_callee
+    _seen = _seen or set()
+    s = S.get(fi.qual)
+    if s is None:
+        return
+    for (kind, path), hits in s['mutates'].items():
+        for node, how in hits:
+            m = _re.match(r'via (\S+)\((\w+)\)$', how)
+            if not m or _depth > 4:
+                yield kind, path, how, node, fi
+                continue
+            rc = resolve_callee(prog, fi, node) if isinstance(node, ast.Call) else None
+            if rc is None:
+                yield kind, path, how, node, fi
+                continue
+            callee, pname = rc[0], m.group(2)
+            key = (callee.qual, pname, path)
+            if key in _seen:
+                continue
+            _seen.add(key)
+            # which part of `path` is the callee's parameter itself: the summary recorded  actual-root + rest
+            found = False
+            for k2, p2, how2, node2, owner in leaf_mutations(prog, S, callee, _depth + 1, _seen):
+                if k2 != 'param' or not (p2 == pname or p2.startswith(pname + '.')):
+                    continue
+                rest = p2[len(pname):]
+                if not (path == rest.lstrip('.') or path.endswith(rest)):
+                    continue
+                found = True
+                yield kind, path, how2, node2, owner
+            if not found:
+                yield kind, path, how, node, fi
+
+
+def inline_locals(fn_node, expr, depth=3):
+    """`expr` with every local name that the function binds exactly once (plain `name = value`, not a parameter, not
+    rebound by a loop / with / augmented assignment) replaced by its defining expression: `s = int(g.integers(9));
+    default_rng(s)` reads as `default_rng(int(g.integers(9)))`.  Returns an ast expression (a copy)."""
+    import copy as _copy
+    params = set()
+    if isinstance(fn_node, (ast.FunctionDef, ast.Lambda)):
+        a = fn_node.args
+        params = {x.arg for x in a.posonlyargs + a.args + a.kwonlyargs}
+        if a.vararg:
+            params.add(a.vararg.arg)
+        if a.kwarg:
+            params.add(a.kwarg.arg)
+    defs, count = {}, {}
+    body = fn_node.body if isinstance(getattr(fn_node, 'body', None), list) else []
+    for st in body:
+        for n in ast.walk(st):
+            if isinstance(n, (ast.FunctionDef, ast.Lambda)) and n is not fn_node:
+                continue
+            if isinstance(n, ast.Name) and isinstance(n.ctx, (ast.Store, ast.Del)):
+                count[n.id] = count.get(n.id, 0) + 1
+            if isinstance(n, ast.Assign) and len(n.targets) == 1 and isinstance(n.targets[0], ast.Name):
+                defs[n.targets[0].id] = n.value
+
+    class R(ast.NodeTransformer):
+        def __init__(self, d):
+            self.d = d
+
+        def visit_Name(self, n):
+            if isinstance(n.ctx, ast.Load) and n.id in defs and count.get(n.id) == 1 and n.id not in params and self.d > 0:
+                return R(self.d - 1).visit(_copy.deepcopy(defs[n.id]))
+            return n
+    return R(depth).visit(_copy.deepcopy(expr))
